@@ -334,6 +334,13 @@ def write_replay(pid, n, payload):
 def write_evidence(pid, tier, seed, level, coverage, assumptions, wall, violations):
     d = os.path.join(ROOT, "evidence")
     os.makedirs(d, exist_ok=True)
+    # keys the evidence schema reserves for counts / fixed types
+    for k in ("evaluations", "distinct_nontrivial", "states", "transitions", "traces_validated_against_impl", "obligations", "discharged", "programs", "disagreements_checked"):
+        if k in coverage and not (isinstance(coverage[k], int) and not isinstance(coverage[k], bool) and coverage[k] >= 0):
+            raise ToolError("evidence key coverage.%s must be a non-negative integer" % k)
+    for k, t in (("rule", str), ("samples", list), ("checker_cmd", str), ("trusted_base", list), ("explanation", str), ("exhaustive", bool)):
+        if k in coverage and not isinstance(coverage[k], t):
+            raise ToolError("evidence key coverage.%s has the wrong type" % k)
     ev = {"property_id": pid, "tier": tier, "seed": seed, "level": level, "coverage": coverage,
           "assumptions": assumptions, "wall_s": round(wall, 2), "violations": violations}
     with open(os.path.join(d, pid + ".json"), "w") as f:
